@@ -211,49 +211,305 @@ def rule_tables(ctx, tier):
 
 # ------------------------------------------------------------------ CONSIST
 def rule_consist(ctx):
+  """Histogram tests: statistic -> class index -> chi-square against a table with the same number of classes.  Everything is read from the
+  symbolic values of the walker (names, temporaries and statement order are irrelevant); class functions are compared with
+  clamp(T, 0, K) on a grid straddling both breakpoints (pcstatic/gridval.py)."""
   R = "R-C12-CONSIST"
   repo = ctx.repo
+  from pcstatic import gridval
+  # ---- LongestRuns ladder
   f = repo.func(MOD, "LongestRuns")
-  src = ast.unparse(f.node)
-  pa = local_assign(f, "params")
-  rows = fold.try_fold(pa[0].value) if pa else None
-  ok = isinstance(rows, list) and [r[0] for r in rows] == sorted(r[0] for r in rows)
-  loops = [n for n in ast.walk(f.node) if isinstance(n, ast.For) and "params" in ast.unparse(n.iter)]
-  rev = len(loops) == 1 and ast.unparse(loops[0].iter) in ("params[::-1]", "reversed(params)")
-  gate = len(loops) == 1 and any(isinstance(x, ast.If) and norm(x.test) in ("n >= p[0]", "p[0] <= n") for x in loops[0].body)
-  ctx.record(R, f.where, "parameter ladder scanned from the largest min_n down", bool(ok and rev and gate),
-             "rows ascending by min_n, iterated in reverse, first row with n >= min_n selected" if ok and rev and gate else
-             "ladder order / selection changed: ascending=%s reversed=%s gate=%s" % (ok, rev, gate))
-  k_ok = any(norm(s) == "k = v_upper - v_lower" for s in ast.walk(f.node) if isinstance(s, ast.Assign))
-  v_ok = any(norm(s) == "v = [0] * (v_upper - v_lower + 1)" for s in ast.walk(f.node) if isinstance(s, ast.Assign))
-  idx_ok = "idx = max(0, min(v_upper, x) - v_lower)" in src
-  chi = "ChiSquare(v, pi, k)" in src
-  ctx.record(R, f.where, "classes: k = v_upper - v_lower, len(v) = k + 1, clamp to [v_lower, v_upper]", k_ok and v_ok and idx_ok and chi,
-             "shapes agree with the table" if k_ok and v_ok and idx_ok and chi else "k=%s v=%s idx=%s chi=%s" % (k_ok, v_ok, idx_ok, chi))
-  f = repo.func(MOD, "BinaryMatrixRankImpl")
-  src = ast.unparse(f.node)
-  ok = "v = [0] * (k + 1)" in src and "v[min(k, r - rank)] += 1" in src and "pi = RankDistribution(r, c, k)" in src and "ChiSquare(v, pi, k)" in src
-  ctx.record(R, f.where, "rank classes", ok, "k + 1 classes indexed by min(k, r - rank)" if ok else "class vector / index / distribution call changed")
+  w = sym.Walker(repo, f)
+  w.run()
+  n = P("param", "n")
+  ladder = None
+  for info in w.loop_info.values():
+    it = None if isinstance(info["iter"], Seq) else as_poly(info["iter"]).as_atom()
+    rows, order = None, None
+    if isinstance(info["iter"], Seq):
+      rows, order = [as_poly(x).as_atom() for x in info["iter"].items], "forward"
+    elif it is not None and it.kind == "slice" and it.args[0].as_atom() is not None and it.args[0].as_atom().kind == "seq" \
+        and repr(it.args[1]) == repr(P("lit", "None")) and repr(it.args[2]) == repr(P("lit", "None")) and as_poly(it.args[3]).as_int() == -1:
+      rows, order = [as_poly(x).as_atom() for x in it.args[0].as_atom().args][::-1], "reversed"
+    elif it is not None and it.kind == "reversed" and it.args[0].as_atom() is not None and it.args[0].as_atom().kind == "seq":
+      rows, order = [as_poly(x).as_atom() for x in it.args[0].as_atom().args][::-1], "reversed"
+    elif it is not None and it.kind == "seq":
+      rows, order = [as_poly(x).as_atom() for x in it.args], "forward"
+    if rows and all(r is not None and r.kind == "seq" and len(r.args) == 5 for r in rows):
+      ladder = (info, rows, order)
+  if ladder is None:
+    ctx.incomplete(R, f.where, "parameter ladder scanned from the largest min_n down", "no loop over the literal parameter rows found")
+  else:
+    info, rows, order = ladder
+    mins = [as_poly(r.args[0]).as_int() for r in rows]
+    desc = all(a is not None for a in mins) and all(a > b for a, b in zip(mins, mins[1:]))
+    vis = info["visits"][0]
+    row = sym.mk("idx", as_poly(info["iter"]), as_poly(vis["k"])) if not isinstance(info["iter"], Seq) else None
+    sel = True
+    why = []
+    for kind, val, s_, since, v2 in info["body_paths"]:
+      newf = s_.facts[len(v2["head"].facts):]
+      cs = [canon_le(fc) for fc in newf]
+      cs = [c for c in cs if c is not None]
+      m0 = sym.mk("idx", row, Poly.const(0)) if row is not None else None
+      if kind == "break":
+        # n >= row[0]  <=>  row[0] - n <= 0
+        if not (m0 is not None and len(cs) == 1 and (cs[0][0] - (m0 - n)).is_zero() and cs[0][1] == 0):
+          sel = False
+          why.append("a row is selected under a condition other than n >= min_n")
+      elif kind == "fall":
+        if not (m0 is not None and len(cs) == 1 and (cs[0][0] - (n - m0)).is_zero() and cs[0][1] == -1):
+          sel = False
+          why.append("a row is passed over under a condition other than n < min_n")
+      else:
+        sel = False
+        why.append("ladder loop left by %s" % kind)
+    if not desc:
+      why.append("rows are not visited in strictly descending order of min_n (%s): the first hit is not the largest admissible parameter set" % mins)
+    ctx.record(R, f.where, "parameter ladder scanned from the largest min_n down", desc and sel,
+               "; ".join(sorted(set(why))) or "rows visited with min_n = %s (%s), the first with n >= min_n is taken" % (mins, order))
+    # every row: len(pi) == v_upper - v_lower + 1
+    bad = [mins[i] for i, r in enumerate(rows) if not (as_poly(r.args[4]).as_atom() is not None and as_poly(r.args[4]).as_atom().kind == "seq" and
+           as_poly(r.args[2]).as_int() is not None and as_poly(r.args[3]).as_int() is not None and
+           len(as_poly(r.args[4]).as_atom().args) == as_poly(r.args[3]).as_int() - as_poly(r.args[2]).as_int() + 1)]
+    ctx.record(R, f.where, "each row has v_upper - v_lower + 1 probabilities", not bad, "all %d rows" % len(rows) if not bad else "row(s) with min_n %s have a class count different from their table" % bad)
+  # ---- histogram shape of the four chi-square tests
+  def lr_spec(hi):
+    row = hi["pi"].as_atom().args[0] if hi["pi"].as_atom() is not None and hi["pi"].as_atom().kind == "idx" else None
+    if row is None or as_poly(hi["pi"].as_atom().args[1]).as_int() != 4:
+      return None
+    lo, up = sym.mk("idx", row, Poly.const(2)), sym.mk("idx", row, Poly.const(3))
+    st = hi["stat"]
+    grid = [{lo.as_atom(): a, up.as_atom(): a + d, st.as_atom(): x} for a in (0, 1, 4) for d in (1, 3, 6) for x in range(0, a + d + 4)]
+    return st - lo, up - lo, grid, "clamp(x - v_lower, 0, v_upper - v_lower), table of the same row"
+  def rank_spec(hi):
+    r, k = P("param", "r"), P("param", "k")
+    st = hi["stat"]
+    grid = [{r.as_atom(): rv, k.as_atom(): kv, st.as_atom(): x} for rv in (3, 6) for kv in (1, 2, 4) for x in range(0, rv + 1)]
+    want_pi = sym.mk("call", P("lit", MOD + ":RankDistribution"), r, P("param", "c"), k)
+    return (r - st, k, grid, "min(k, r - rank), table RankDistribution(r, c, k)") if hi["pi"] == want_pi else None
+  def ov_spec(hi):
+    st = hi["stat"]
+    grid = [{st.as_atom(): x} for x in range(0, 10)]
+    want_pi = sym.mk("call", P("lit", MOD + ":OverlappingTemplateMatchingDistribution"), P("param", "n"), P("param", "m"), Poly.const(5))
+    return (st, Poly.const(5), grid, "min(5, count), table OverlappingTemplateMatchingDistribution(n, m, 5)") if hi["pi"] == want_pi else None
+  def lc_spec(hi):
+    m = P("param", "m")
+    st = hi["stat"]
+    grid = [{m.as_atom(): mv, st.as_atom(): x} for mv in (10, 11, 24) for x in range(0, mv + 1)]
+    pa = hi["pi"].as_atom()
+    if pa is None or pa.kind != "seq" or len(pa.args) != 7:
+      return None
+    return st - sym.mk("fdiv", m + 1, Poly.const(2)) + 3, Poly.const(6), grid, "clamp(L - (m+1)//2 + 3, 0, 6), seven probabilities"
+  for fname, stat_name, spec in (("LongestRuns", "util:LongestRunOfOnes", lr_spec), ("BinaryMatrixRankImpl", "util:BinaryMatrixRank", rank_spec),
+                                 ("OverlappingTemplateMatchingImpl", "util:OverlappingRunsOfOnes", ov_spec),
+                                 ("LinearComplexityImpl", "berlekamp_massey:LinearComplexity", lc_spec)):
+    f = repo.func(MOD, fname)
+    w = sym.Walker(repo, f)
+    w.run()
+    his = histograms(w, stat_name)
+    if not his:
+      ctx.incomplete(R, f.where, "histogram", "no ChiSquare(v, pi, k) over a class-count list found")
+      continue
+    probs = []
+    text = ""
+    for hi in his:
+      if hi.get("error"):
+        probs.append(hi["error"])
+        continue
+      sp = spec(hi)
+      if sp is None:
+        probs.append("the probability table handed to ChiSquare is not the one that belongs to the class function")
+        continue
+      T, K, grid, text = sp
+      if not (hi["N"] - (hi["K"] + 1)).is_zero():
+        probs.append("the class-count list has %r entries but ChiSquare is told %r degrees (needs k + 1)" % (hi["N"], hi["K"]))
+      if not (hi["K"] - K).is_zero():
+        probs.append("ChiSquare degrees %r instead of %r" % (hi["K"], K))
+      for env in grid:
+        try:
+          t, k = gridval.ev(T, env), gridval.ev(K, env)
+          want = max(0, min(k, t))
+          app = []
+          for idx, facts in hi["pieces"]:
+            hs = [gridval.holds(fc, env) for fc in facts]
+            if any(h is None for h in hs):
+              raise gridval.Unknown("path condition outside the class function's variables: %r" % (facts,))
+            if all(hs):
+              app.append(gridval.ev(idx, env))
+          if len(app) != 1:
+            probs.append("%d classes are incremented for one block (statistic class %d)" % (len(app), t))
+            break
+          if app[0] != want:
+            probs.append("class index %d where %d is specified (unclamped class %d of 0..%d)" % (app[0], want, t, k))
+            break
+        except gridval.Unknown as ex:
+          probs.append("class function not evaluable: %s" % ex)
+          break
+    ctx.record(R, f.where, "classes, counts and table agree", not probs, "; ".join(sorted(set(probs))) or "%d ChiSquare site(s): index = %s; len(v) = k + 1; +1 per block" % (len(his), text))
+  # ---- RankDistribution: k leading classes and the lumped tail, k + 1 entries
   f = repo.func(MOD, "RankDistribution")
-  src = ast.unparse(f.node)
-  ok = "return precomputed[:k] + [sum(precomputed[k:])]" in src and "return res[-k:][::-1] + [sum(res[:-k])]" in src
-  ctx.record(R, f.where, "k + 1 probabilities: k leading classes and the lumped tail", ok, "both branches return k + 1 entries in deficiency order" if ok else "return shape changed")
-  gate = [n for n in ast.walk(f.node) if isinstance(n, ast.If) and "precomputed" in ast.unparse(n)]
-  okg = any(norm(n.test) == "r == c and r >= 31 and (k <= 5)" or norm(n.test) == "r == c and r >= 31 and k <= 5" for n in gate)
-  ctx.record(R, f.where, "asymptotic table only for square r >= 31, k <= 5", okg, "gate r == c and r >= 31 and k <= 5" if okg else "approximation gate changed")
-  f = repo.func(MOD, "OverlappingTemplateMatchingImpl")
-  src = ast.unparse(f.node)
-  ok = "k = 5" in src and "v = [0] * (k + 1)" in src and "v[min(k, cnt)] += 1" in src and "OverlappingTemplateMatchingDistribution(n, m, k)" in src
-  ctx.record(R, f.where, "overlapping classes", ok, "6 classes, clamp at 5" if ok else "class vector changed")
-  f = repo.func(MOD, "LinearComplexityImpl")
-  src = ast.unparse(f.node)
-  ok = "k = 6" in src and "v = [0] * (k + 1)" in src and "median = (m + 1) // 2" in src and "if length <= median - 3:" in src and "elif length >= median + 3:" in src \
-      and "v[length - median + 3] += 1" in src and "v[0] += 1" in src and "v[6] += 1" in src
-  ctx.record(R, f.where, "linear complexity classes around the median", ok, "7 classes: <= mu-3, mu-2 .. mu+2, >= mu+3 with mu = (m+1)//2" if ok else "binning changed")
+  w = sym.Walker(repo, f)
+  w.run()
+  k = P("param", "k")
+  NONE = P("lit", "None")
+  okr, why = True, []
+  n_pre = n_gen = 0
+  for kind, val, s_ in w.terminals:
+    if kind != "return" or isinstance(val, Seq):
+      continue
+    v = as_poly(val)
+    src = None
+    for a in v.all_atoms():
+      if a.kind == "sum":
+        sl = a.args[0].as_atom()
+        if sl is not None and sl.kind == "slice":
+          src = sl.args[0]
+    if src is None:
+      okr = False
+      why.append("a return is not `classes + [lumped tail]`")
+      continue
+    sa = src.as_atom()
+    if sa is not None and sa.kind == "seq":
+      n_pre += 1
+      want = sym.mk("seq", sym.mk("sum", sym.mk("slice", src, k, NONE, NONE))) + sym.mk("slice", src, NONE, k, NONE)
+      gate = [canon_le(fc) for fc in s_.facts]
+      gate = [c for c in gate if c is not None]
+      r_, c_ = P("param", "r"), P("param", "c")
+      sq = any(fc[0] == "cmp" and fc[1] == "Eq" and not isinstance(fc[2], Seq) and (as_poly(fc[2]) - as_poly(fc[3]) in (r_ - c_, c_ - r_)) for fc in s_.facts)
+      big = any((c[0] - (-r_)).is_zero() and c[1] <= -31 for c in gate)
+      small = any((c[0] - k).is_zero() and c[1] <= len(sa.args) - 1 for c in gate)
+      if not (sq and big and small):
+        okr = False
+        why.append("asymptotic table used outside square matrices with r >= 31 and k <= %d" % (len(sa.args) - 1))
+    else:
+      n_gen += 1
+      want = sym.mk("seq", sym.mk("sum", sym.mk("slice", src, NONE, -k, NONE))) + sym.mk("slice", sym.mk("slice", src, -k, NONE, NONE), NONE, NONE, Poly.const(-1))
+    if v != want:
+      okr = False
+      why.append("return is not [p(rank r), ..., p(rank r-k+1), p(rank <= r-k)]: %r" % (v,))
+  if n_pre < 1 or n_gen < 1:
+    okr = False
+    why.append("expected an asymptotic and an exact branch")
+  ctx.record(R, f.where, "k + 1 probabilities: k leading classes and the lumped tail", okr, "; ".join(sorted(set(why))) or
+             "asymptotic branch (r == c, r >= 31, k within the table) and exact branch both return the k top ranks in deficiency order plus the summed tail")
+  # ---- LargeBinaryMatrixRank: p = SF[size - rank], 0 beyond the table
   f = repo.func(EXT, "LargeBinaryMatrixRank")
-  src = ast.unparse(f.node)
-  ok = "k = size - rank" in src and "p_value = ASYMPTOTIC_RANK_SF[k]" in src and "if k >= len(ASYMPTOTIC_RANK_SF):" in src
-  ctx.record(R, f.where, "survival function indexed by the rank deficiency", ok, "p = SF[size - rank], 0 beyond the table" if ok else "lookup changed")
+  w = sym.Walker(repo, f)
+  w.run()
+  SF = P("ref", EXT + ".ASYMPTOTIC_RANK_SF")
+  apps = [e for e in w.events if e.kind == "mutate" and e.data["method"] == "append"]
+  okl, why = bool(apps), []
+  for e in apps:
+    a = e.data["args"][0] if e.data["args"] else None
+    pv = a.items[1] if isinstance(a, Seq) and len(a.items) == 2 else None
+    if pv is None:
+      okl = False
+      why.append("appended value is not (name, p-value)")
+      continue
+    ranks = [x for x in (as_poly(pv).all_atoms() if not isinstance(pv, Const) else []) if x.kind == "call" and str(x.args[0]).find("BinaryMatrixRank") >= 0]
+    facts = [canon_le(fc) for fc in e.facts]
+    facts = [c for c in facts if c is not None]
+    L = sym.mk("len", SF)
+    if isinstance(pv, Const) or as_poly(pv).is_zero():
+      # needs deficiency >= len(SF)
+      if not any(c[1] == 0 and (c[0].atoms() and any(x.kind == "len" for x in c[0].all_atoms())) for c in facts):
+        okl = False
+        why.append("p-value 0 is not conditioned on the deficiency exceeding the table")
+      continue
+    pa = as_poly(pv).as_atom()
+    if pa is None or pa.kind != "idx" or pa.args[0] != SF:
+      okl = False
+      why.append("p-value is not read from ASYMPTOTIC_RANK_SF")
+      continue
+    d = as_poly(pa.args[1])
+    sizes = [x for x in d.atoms() if x.kind == "sym"]
+    rk = [x for x in d.atoms() if x.kind == "call" and "BinaryMatrixRank" in repr(x.args[0])]
+    if not (len(sizes) == 1 and len(rk) == 1 and (d - (Poly.atom(sizes[0]) - Poly.atom(rk[0]))).is_zero()):
+      okl = False
+      why.append("table index is not size - rank")
+    if not any((c[0] - (d - L)).is_zero() and c[1] == -1 for c in facts):
+      okl = False
+      why.append("table lookup is not guarded by deficiency < len(table)")
+  ctx.record(R, f.where, "survival function indexed by the rank deficiency", okl, "; ".join(sorted(set(why))) or "p = SF[size - rank] under size - rank < len(SF), else 0")
+
+
+def histograms(w, stat_name):
+  """ChiSquare(v, pi, k) sites with v a class-count list: [{N, K, pi, stat, pieces[(index, facts)]}]."""
+  out = []
+  seen = set()
+  for e in w.events:
+    if e.kind != "call" or not e.data["name"].endswith(":ChiSquare") or len(e.data["args"]) < 3:
+      continue
+    V, PI, K = e.data["args"][:3]
+    if isinstance(V, Seq):
+      continue
+    V = as_poly(V)
+    key = repr(V)
+    if key in seen:
+      continue
+    seen.add(key)
+    hi = {"K": as_poly(K), "pi": as_poly(PI) if not isinstance(PI, Seq) else sym.mk("seq", *[as_poly(x) for x in PI.items])}
+    pa = hi["pi"].as_atom()
+    if pa is not None and pa.kind == "idx" and pa.args[0].as_atom() is not None and pa.args[0].as_atom().kind == "ref":
+      # table read back from a module-level memo: take the value stored under the same key (soundness of the memo: R-C12-PURE)
+      for x in w.events:
+        if x.kind == "store" and as_poly(x.data["base"]) == pa.args[0] and repr(as_poly(x.data["index"]) if not isinstance(x.data["index"], Seq) else
+                                                                                 sym.mk("seq", *[as_poly(y) for y in x.data["index"].items])) == repr(pa.args[1]):
+          hi["pi"] = as_poly(x.data["value"])
+    loop = None
+    for info in w.loop_info.values():
+      for vis in info["visits"]:
+        for nm, sv in vis["after_env"].items():
+          if not isinstance(sv, Seq) and as_poly(sv) == V:
+            loop = (info, vis, nm)
+    if loop is None:
+      hi["error"] = "the counts handed to ChiSquare are not filled by a loop"
+      out.append(hi)
+      continue
+    info, vis, nm = loop
+    init = vis["pre_env"].get(nm)
+    ia = as_poly(init).as_atom() if init is not None and not isinstance(init, Seq) else None
+    if isinstance(init, Seq) and all(as_poly(x).is_zero() for x in init.items):
+      hi["N"] = Poly.const(len(init.items))
+    elif ia is not None and ia.kind == "listrep" and ia.args[0].as_atom() is not None and ia.args[0].as_atom().kind == "seq" \
+        and len(ia.args[0].as_atom().args) == 1 and as_poly(ia.args[0].as_atom().args[0]).is_zero():
+      hi["N"] = as_poly(ia.args[1])
+    else:
+      hi["error"] = "the class-count list does not start as zeros"
+      out.append(hi)
+      continue
+    head = as_poly(vis["head"].env[nm])
+    pieces = []
+    stat = None
+    for kind, val, s_, since, v2 in info["body_paths"]:
+      if v2 is not vis:
+        continue
+      if kind != "fall":
+        hi["error"] = "counting loop left by %s" % kind
+        break
+      evs = [w.events[i] for i in s_.trace if i >= since] if hasattr(s_, "trace") else []
+      stores = [x for x in evs if x.kind == "store" and as_poly(x.data["base"]) == head]
+      if len(stores) != 1:
+        hi["error"] = "%d class counts are written for one block" % len(stores)
+        break
+      st = stores[0]
+      idx = as_poly(st.data["index"])
+      if not (as_poly(st.data["value"]) - sym.mk("idx", head, idx) - 1).is_zero():
+        hi["error"] = "a class count is not incremented by exactly one"
+        break
+      facts = list(s_.facts[len(vis["head"].facts):])
+      pieces.append((idx, facts))
+      for src in [idx] + [as_poly(x) for fc in facts if fc[0] == "cmp" for x in fc[2:4] if not isinstance(x, Seq)]:
+        for a in src.all_atoms():
+          if a.kind == "call" and str(a.args[0].as_atom().args[0] if isinstance(a.args[0], Poly) and a.args[0].as_atom() is not None else "").endswith(stat_name):
+            stat = Poly.atom(a)
+    if "error" not in hi:
+      if stat is None:
+        hi["error"] = "the class index does not depend on %s" % stat_name
+      hi["pieces"], hi["stat"] = pieces, stat
+    out.append(hi)
+  return out
 
 
 # ------------------------------------------------------------------ MINSIZE
@@ -287,7 +543,19 @@ def rule_minsize(ctx):
       rows = fold.try_fold(pa[0].value) if pa else None
       lo = min(r[0] for r in rows) if isinstance(rows, list) and rows else None
       in_else = any(isinstance(x, ast.For) and any(isinstance(y, ast.Raise) for z in x.orelse for y in ast.walk(z)) for x in ast.walk(f.node))
-      gate = any(isinstance(x, ast.If) and norm(x.test) in ("n >= p[0]", "p[0] <= n") and any(isinstance(y, ast.Break) for y in x.body) for x in ast.walk(f.node))
+      # the row is taken (break) exactly under n >= row[0]: canonical comparison read from the walker (shape-independent)
+      gate = False
+      for info in w.loop_info.values():
+        if not any(isinstance(y, ast.Raise) for z in getattr(info["node"], "orelse", []) for y in ast.walk(z)) or isinstance(info["iter"], Seq):
+          continue
+        brk = [bp for bp in info["body_paths"] if bp[0] == "break"]
+        gate = bool(brk)
+        for kind, val, s_, since, v2 in brk:
+          row0 = sym.mk("idx", sym.mk("idx", as_poly(info["iter"]), as_poly(v2["k"])), Poly.const(0))
+          cs = [canon_le(fc) for fc in s_.facts[len(v2["head"].facts):]]
+          cs = [c for c in cs if c is not None]
+          if not (len(cs) == 1 and (cs[0][0] - (row0 - n)).is_zero() and cs[0][1] == 0):
+            gate = False
       ok = lo == 128 and in_else and gate
       ctx.record(R, f.where, "raise iff n < 128", ok, "for-else over the ladder: raised iff n is below every min_n; smallest min_n = %s" % lo)
       continue
